@@ -172,6 +172,12 @@ func genDBuf(seed int64, n int, tier string) []Script {
 		default:
 			B = W + 1 + r.Intn(40)
 		}
+		if r.Intn(16) == 0 {
+			// at and beyond the boundary of what the configuration check
+			// accepts (WindowSize < BufferSize): if Init/NewDecoder accepts
+			// such a geometry the object must still behave
+			B = W - r.Intn(2)
+		}
 		attacker := r.Intn(3) == 0
 		alpha := 2 + r.Intn(3)
 		nops := 5 + r.Intn(30)
@@ -264,7 +270,7 @@ func genDBuf(seed int64, n int, tier string) []Script {
 				acc := -1
 				fail := false
 				if r.Intn(2) == 0 {
-					acc = r.Intn(B)
+					acc = r.Intn(B + 1)
 					fail = r.Intn(3) == 0
 				}
 				ops = append(ops, map[string]any{"op": "writeto", "accept": acc, "fail": fail})
